@@ -878,8 +878,8 @@ Section Concrete.
       split.
       + apply Inv_flag, Inv_set_load; [exact Is | apply HF, (inv_load W s Is)].
       + pose proof (inv_load W s Is) as HL. rewrite Forall_forall in HL. specialize (HL _ Hin). cbn [fst snd] in HL.
-        rewrite HL, erase_tag. reflexivity.
-    - intros _ Is. split; [|apply erase_tag].
+        rewrite HL, erase_idem, erase_tag. reflexivity.
+    - intros _ Is. split; [|rewrite erase_idem; apply erase_tag].
       apply Inv_set_load; [exact Is|]. apply memo_put_Forall; [apply (inv_load W s Is) | reflexivity].
   Qed.
 
